@@ -21,8 +21,15 @@ def MakeCustomaryToBase(a: Any, b: Any, c: Any, d: Any) -> UnaryConversionFunc:
         Returns a callable with the conversion to the base.
     """
 
-    def ret(x: Any) -> Any:
-        return (a + b * x) / (c + d * x)
+    if d == 0:
+        # Linear conversion: the null term d * x is left out (it is nan for an infinite x).
+        def ret(x: Any) -> Any:
+            return (a + b * x) / c
+
+    else:
+
+        def ret(x: Any) -> Any:
+            return (a + b * x) / (c + d * x)
 
     ret.__a__ = a  # type:ignore[attr-defined]
     ret.__b__ = b  # type:ignore[attr-defined]
@@ -47,8 +54,15 @@ def MakeBaseToCustomary(a: Any, b: Any, c: Any, d: Any) -> UnaryConversionFunc:
          coefficients).
     """
 
-    def ret(y: Any) -> Any:
-        return (a - c * y) / (d * y - b)
+    if d == 0:
+        # Linear conversion: the null term d * y is left out (it is nan for an infinite y).
+        def ret(y: Any) -> Any:
+            return (a - c * y) / -b
+
+    else:
+
+        def ret(y: Any) -> Any:
+            return (a - c * y) / (d * y - b)
 
     ret.__a__ = a  # type:ignore[attr-defined]
     ret.__b__ = b  # type:ignore[attr-defined]
